@@ -747,3 +747,286 @@ func init() {
 		},
 	})
 }
+
+func isCloseCall(in ssa.Instruction) (ssa.Value, bool) {
+	c, ok := in.(*ssa.Call)
+	if !ok {
+		return nil, false
+	}
+	if b, ok := c.Call.Value.(*ssa.Builtin); ok && b.Name() == "close" && len(c.Call.Args) == 1 {
+		return c.Call.Args[0], true
+	}
+	return nil, false
+}
+
+// chanField: the struct field a channel value is loaded from, if any.
+func chanField(v ssa.Value) *types.Var {
+	v = stripConv(v)
+	if u, ok := v.(*ssa.UnOp); ok && u.Op == token.MUL {
+		if fa, ok := u.X.(*ssa.FieldAddr); ok {
+			return structField(fa.X.Type(), fa.Field)
+		}
+		if cell := cellOf(u.X); cell != nil {
+			// captured local channel: identify by the cell's defining position
+			return nil
+		}
+	}
+	return nil
+}
+
+func init() {
+	register(&Rule{
+		ID: "C16-e", Template: "T2 never-follows (close before error send)",
+		Doc: "No send on a closed channel: in the pipeline packages no function sends on an error channel after it has closed another channel in the same activation. Consumers take the close of the data channel as the cue to close and read the error channel, so `close(data); errChan <- err` can panic with 'send on closed channel'. (A deferred close runs after the body and is fine.)",
+		Min: 4,
+		Run: func(p *Program, r *RuleResult) error {
+			fns := p.FuncsInPkg("pkg/ingest", "pkg/sorter", "pkg/diff", "pkg/merge", "pkg/progress")
+			r.Analysed = len(fns)
+			for _, fn := range fns {
+				var closes []ssa.Instruction
+				var sends []ssa.Instruction
+				for _, b := range fn.Blocks {
+					for _, in := range b.Instrs {
+						if ch, ok := isCloseCall(in); ok && !isErrChan(ch.Type()) {
+							closes = append(closes, in)
+						}
+						if s, ok := in.(*ssa.Send); ok && isErrChan(s.Chan.Type()) {
+							sends = append(sends, in)
+						}
+					}
+				}
+				for k, s := range sends {
+					key := fmt.Sprintf("%s|errsend#%d", funcName(fn), k)
+					what := "error is sent before the data channel is closed"
+					bad := false
+					for _, c := range closes {
+						if path, reach := reachAfter(fn, c, s, nil, nil); reach {
+							r.bad(key, p.Rel(s.Pos()), what, fmtPath("an error send is reachable after close() of the data channel at "+p.Rel(c.Pos()), path))
+							bad = true
+							break
+						}
+					}
+					if !bad {
+						r.ok(key, p.Rel(s.Pos()), what)
+					}
+				}
+			}
+			return nil
+		},
+	})
+	register(&Rule{
+		ID: "C16-f", Template: "ownership (a data channel is closed by its sender)",
+		Doc: "A data channel kept in a struct field is closed only by a function that also sends on it (the producer goroutine), never by the consumer side: closing from another goroutine while the producer is parked in a send panics with 'send on closed channel'. Error channels, which consumers close after the data channel was drained, are out of scope.",
+		Min: 2,
+		Run: func(p *Program, r *RuleResult) error {
+			fns := p.FuncsInPkg("pkg/ingest", "pkg/sorter", "pkg/diff", "pkg/merge", "pkg/progress")
+			r.Analysed = len(fns)
+			sendersOf := map[*types.Var]map[*ssa.Function]bool{}
+			type cl struct {
+				fn *ssa.Function
+				in ssa.Instruction
+				f  *types.Var
+			}
+			var closes []cl
+			for _, fn := range fns {
+				for _, b := range fn.Blocks {
+					for _, in := range b.Instrs {
+						if s, ok := in.(*ssa.Send); ok && !isErrChan(s.Chan.Type()) {
+							if f := chanField(s.Chan); f != nil {
+								if sendersOf[f] == nil {
+									sendersOf[f] = map[*ssa.Function]bool{}
+								}
+								sendersOf[f][fn] = true
+							}
+						}
+						var chv ssa.Value
+						if v, ok := isCloseCall(in); ok {
+							chv = v
+						}
+						if d, ok := in.(*ssa.Defer); ok {
+							if bi, ok := d.Call.Value.(*ssa.Builtin); ok && bi.Name() == "close" && len(d.Call.Args) == 1 {
+								chv = d.Call.Args[0]
+							}
+						}
+						if chv != nil && !isErrChan(chv.Type()) {
+							if f := chanField(chv); f != nil {
+								closes = append(closes, cl{fn, in, f})
+							}
+						}
+					}
+				}
+			}
+			for f, ss := range sendersOf {
+				n := 0
+				for _, c := range closes {
+					if c.f != f {
+						continue
+					}
+					key := fmt.Sprintf("%s|close(%s)#%d", funcName(c.fn), f.Name(), n)
+					n++
+					what := "data channel field " + f.Name() + " is closed by the function that sends on it"
+					if ss[c.fn] {
+						r.ok(key, p.Rel(c.in.Pos()), what)
+					} else {
+						r.bad(key, p.Rel(c.in.Pos()), what, funcName(c.fn)+" closes a channel that another goroutine sends on: a producer parked in the send panics")
+					}
+				}
+				if n == 0 {
+					r.okWhy(fmt.Sprintf("field %s|never-closed", f.Name()), "-", "data channel field "+f.Name()+" is closed by the function that sends on it", "no close() of this field found")
+				}
+			}
+			return nil
+		},
+	})
+
+	register(&Rule{
+		ID: "C09-g", Template: "T1 must-traverse (completion)",
+		Doc: "A fetch that succeeded always writes its refs: in every function that fetches objects and saves fetched refs, each successful return after the object fetch passes the ref-saving call — an early 'nothing new' return would leave refs unwritten after an interrupted earlier fetch, and the rerun could never repair them.",
+		Min: 1,
+		Run: func(p *Program, r *RuleResult) error {
+			nups, err := p.MustFuncs("pkg/api/client.NewUploadPackSession")
+			if err != nil {
+				return err
+			}
+			sfr, err := p.MustFuncs("pkg/ref.SaveFetchRef")
+			if err != nil {
+				return err
+			}
+			fetchPkg := p.FuncsInPkg("cmd/wrgl/fetch")
+			fetchers, savers := map[*types.Func]bool{}, map[*types.Func]bool{}
+			for _, fn := range fetchPkg {
+				if fn.Parent() != nil {
+					continue
+				}
+				obj, ok := fn.Object().(*types.Func)
+				if !ok {
+					continue
+				}
+				if len(callsTo(fn, nups)) > 0 {
+					fetchers[obj] = true
+				}
+				if len(callsTo(fn, sfr)) > 0 {
+					savers[obj] = true
+				}
+			}
+			if len(fetchers) == 0 || len(savers) == 0 {
+				return &AnchorError{"object-fetching / ref-saving functions of cmd/wrgl/fetch"}
+			}
+			var fns []*ssa.Function
+			fns = append(fns, fetchPkg...)
+			fns = append(fns, p.FuncsInPkg("cmd/wrgl")...)
+			r.Analysed = len(fns)
+			for _, fn := range fns {
+				fcalls := callsTo(fn, fetchers)
+				scalls := callsTo(fn, savers)
+				if len(fcalls) == 0 || len(scalls) == 0 {
+					continue
+				}
+				blk := map[ssa.Instruction]bool{}
+				for _, s := range scalls {
+					blk[s] = true
+				}
+				ei := errorResultIndex(fn.Signature)
+				for _, fc := range fcalls {
+					call, ok := fc.(*ssa.Call)
+					if !ok {
+						continue
+					}
+					key := callKey(fn, fc) + "|refs-saved"
+					what := "every successful return after the object fetch has saved the refs"
+					bad := false
+					for _, ret := range returnsOf(fn) {
+						v := retVal(ret, ei)
+						if v != nil && (definitelyNonNilError(v) || nonNilByGuard(fn, ret, v)) {
+							continue
+						}
+						if path, reach := reachAfter(fn, call, ret, mkCut(successEdgesFail(fn, call)), blk); reach {
+							r.bad(key, p.Rel(ret.Pos()), what, fmtPath("a successful return is reachable after the fetch without saving refs", path))
+							bad = true
+							break
+						}
+					}
+					if !bad {
+						r.ok(key, p.Rel(fc.Pos()), what)
+					}
+				}
+			}
+			return nil
+		},
+	})
+
+	register(&Rule{
+		ID: "C13-h", Template: "T1 must-traverse (index before table)",
+		Doc: "'Table present' implies 'table usable': every production call of objects.SaveTable outside pkg/objects happens only after a derived-index write for that table (objects.SaveTableIndex, or a wrapper such as ingest.IndexTable) succeeded on every path — the index may not be skipped on the strength of leftovers from an interrupted earlier operation.",
+		Min: 2,
+		Run: func(p *Program, r *RuleResult) error {
+			st, err := p.MustFuncs("pkg/objects.SaveTable")
+			if err != nil {
+				return err
+			}
+			derived, err := p.MustFuncs("pkg/objects.SaveTableIndex")
+			if err != nil {
+				return err
+			}
+			g := &guardCheck{p: p, pre: newSuccSummary(p, derived)}
+			fns := p.ProdFuncs()
+			r.Analysed = len(fns)
+			for _, fn := range fns {
+				if fnPkgPath(fn) == modPath+"/pkg/objects" {
+					continue
+				}
+				for _, c := range callsTo(fn, st) {
+					what := "table object written only after its table index was written successfully"
+					if ok, w := g.check(fn, c, 0); ok {
+						r.ok(callKey(fn, c), p.Rel(c.Pos()), what)
+					} else {
+						r.bad(callKey(fn, c), p.Rel(c.Pos()), what, w)
+					}
+				}
+			}
+			return nil
+		},
+	})
+}
+
+func init() {
+	register(&Rule{
+		ID: "C13-i", Template: "T1 must-precede (table object removed first)",
+		Doc: "Prune never leaves a table that is reported present without its index: in pkg/prune every objects.DeleteTableIndex / DeleteTableProfile call is preceded on every path by the objects.DeleteTable call for the same sum, so a prune that dies in between leaves an orphan index (harmless) rather than a table object whose index is gone.",
+		Min: 2,
+		Run: func(p *Program, r *RuleResult) error {
+			dt, err := p.MustFuncs("pkg/objects.DeleteTable")
+			if err != nil {
+				return err
+			}
+			later, err := p.MustFuncs("pkg/objects.DeleteTableIndex", "pkg/objects.DeleteTableProfile")
+			if err != nil {
+				return err
+			}
+			fns := p.FuncsInPkg("pkg/prune")
+			r.Analysed = len(fns)
+			for _, fn := range fns {
+				tables := callsTo(fn, dt)
+				for _, c := range callsTo(fn, later) {
+					key := callKey(fn, c)
+					what := "table index / profile deleted only after the table object itself"
+					ok := false
+					for _, t := range tables {
+						if len(t.Common().Args) < 2 || len(c.Common().Args) < 2 || !sameObject(t.Common().Args[1], c.Common().Args[1]) {
+							continue
+						}
+						if _, reach := reachAfter(fn, nil, c, nil, map[ssa.Instruction]bool{t: true}); !reach {
+							ok = true
+						}
+					}
+					if ok {
+						r.ok(key, p.Rel(c.Pos()), what)
+					} else {
+						r.bad(key, p.Rel(c.Pos()), what, "the derived object is deleted on a path that has not deleted the table object first")
+					}
+				}
+			}
+			return nil
+		},
+	})
+}
